@@ -239,7 +239,7 @@ def lean_type(t):
     if t == 'match':
         return 'Re.Match'
     if t == 'regex':
-        return 'Re.Regex'
+        return 'Re.Pattern'
     if t == 'exc':
         return 'Exc'
     if t == 'module':
